@@ -16,7 +16,9 @@ Theorem C18_export_import_export : forall k v s s',
 Proof. exact eie_b. Qed.
 Print Assumptions C18_export_import_export.
 
-(* the same over histories: any genesis document (all flag combinations, any accounts), any operation sequence *)
+(* the same over histories: any genesis document (all flag combinations, any accounts), any operation sequence -
+   among the operations: fee-market params set by governance to ANY valid value (OFm: integral, fractional, zero, huge
+   min gas price; any base fee) and EndBlock applying its floor trunc(min gas price) (OEndBlock) *)
 Theorem C18_history_roundtrip : forall k v g ops s0 s',
   v_hash v CODE_EMPTY = EMPTYH -> consts_ok k -> import k v g = Ok s0 ->
   import k v (export k (run k v ops s0)) = Ok s' ->
@@ -212,7 +214,7 @@ Qed.
    approvals (set, clear), proof; the hypotheses of C18_history_roundtrip are met and the cpc / vauth losses show *)
 Definition ex_ops : list op :=
   [OSetCode 10 5; OSetState 10 0 0; OSetState 10 3 9; OSetState 20 1 4; OSetCode 11 6; OSetState 11 2 2; ODestroy 11;
-   ODeployErc20 301 8 (Meta 1 99); OApprove 1 2 500; OApprove 1 3 7; OApprove 1 3 0; OProof 5 9; OFm (Fm 12345 3)].
+   ODeployErc20 301 8 (Meta 1 99); OApprove 1 2 500; OApprove 1 3 7; OApprove 1 3 0; OProof 5 9; OFm (Fm 12345 3); OFm (Fm 12345 (7 * DEC + DEC / 4)); OEndBlock 3; OFm (Fm (-1) 0)].
 Definition ex_genesis : gen := Gen 42 [] (Fm 1000000000 0) 1 true true.
 Example C18_example_history :
   exists s0 s', import k0 v0 ex_genesis = Ok s0 /\
@@ -220,7 +222,8 @@ Example C18_example_history :
     e_storage (s_evm s') = [(skey 10 0, 0); (skey 10 3, 9); (skey 20 1, 4)] /\
     c_metas (s_cpc (run k0 v0 ex_ops s0)) = [(100, Meta 2 22); (200, Meta 3 33); (300, Meta 1 11); (301, Meta 1 99)] /\
     c_allow (s_cpc (run k0 v0 ex_ops s0)) = [(akey 1 2, 500)] /\
-    c_metas (s_cpc s') = [(100, Meta 2 22); (200, Meta 3 33)] /\ c_allow (s_cpc s') = [] /\ s_proofs s' = [].
+    c_metas (s_cpc s') = [(100, Meta 2 22); (200, Meta 3 33)] /\ c_allow (s_cpc s') = [] /\ s_proofs s' = [] /\
+    s_fm s' = Fm 7 (7 * DEC + DEC / 4).
 Proof. eexists. eexists. split; [vm_compute; reflexivity|]. split; [vm_compute; reflexivity|]. vm_compute. repeat split; reflexivity. Qed.
 
 (* min gas price 1000000000.5 set by governance, idle chain: EndBlock leaves the base fee on the floor 1000000000 and the
